@@ -5,6 +5,7 @@ pub mod dporacles;
 pub mod engine;
 pub mod envsim;
 pub mod fuzzdrv;
+pub mod fuzzentry;
 pub mod props;
 pub mod refcodec;
 pub mod ringsim;
